@@ -162,6 +162,23 @@ func gen(r *vc.Rand, thorough bool) (untimed, timed []job) {
 		}
 	}
 
+	// --- 3c. forwarding: a target arrives on a node, the tunnel is resolved and the dedicated connection goes to the
+	// address the source node has registered last.  Addresses change between tunnels (restart / reschedule), the old
+	// address keeps accepting (taken over by another node), several tunnels are forwarded by the same node.
+	for _, b := range backends {
+		for _, cs := range forwardScenarios(r, b) {
+			add(cs, "gen:forward-scenario")
+		}
+	}
+	nFwd := 500
+	if thorough {
+		nFwd = 6000
+	}
+	for i := 0; i < nFwd; i++ {
+		b := vc.Pick(r, backends)
+		add(forwardHistory(r, b), "gen:forward-history")
+	}
+
 	// --- 4. excluded points: strings that are not valid UTF-8 (JSON replaces the bytes)
 	for _, b := range backends {
 		bad := rec{tid: "t\xff\xfe", mp: "\xc3(", sec: "ok", src: "node-0", host: "\x80"}
@@ -350,4 +367,81 @@ func collideCases(r *vc.Rand, b string, fam []string) []string {
 		// ids and node ids never meet
 		fmtRec("reg", 0, recs[0]), fmt.Sprintf("geta:1:%s", hx(fam[0])), look(2, fam[0]))
 	return []string{mk(b, "0,0,0", tun), mk(b, "0,0,0", ses), mk(b, "0,0,0", adr)}
+}
+
+func fwd(n int, tid string) string { return fmt.Sprintf("fwd:%d:%s", n, hx(tid)) }
+func rega(n int, nid, addr string) string {
+	return fmt.Sprintf("rega:%d:%s:%s", n, hx(nid), hx(addr))
+}
+func geta(n int, nid string) string { return fmt.Sprintf("geta:%d:%s", n, hx(nid)) }
+
+func fwdRec(r *vc.Rand, tid, src string) rec {
+	rc := genRec(r, tid, false)
+	rc.src = src
+	return rc
+}
+
+func forwardScenarios(r *vc.Rand, b string) []string {
+	var out []string
+	for f := 0; f < 3; f++ { // the forwarding node
+		s := (f + 1 + r.Intn(2)) % 3 // the source node
+		o := 3 - f - s               // the third node
+		sn, on := fmt.Sprintf("node-%d", s), fmt.Sprintf("node-%d", o)
+		// 1. forward, source re-registers elsewhere while the old endpoint stays alive (taken over), forward the next tunnel
+		out = append(out, mk(b, "0,0,0", []string{
+			rega(s, sn, "@0"), rega(o, on, "@1"), fmtRec("reg", s, fwdRec(r, "T1", sn)), fwd(f, "T1"),
+			rega(s, sn, "@2"), rega(o, on, "@0"), fmtRec("reg", s, fwdRec(r, "T2", sn)), fwd(f, "T2"), geta(f, sn),
+			fmtRec("reg", o, fwdRec(r, "T3", on)), fwd(f, "T3"), fwd(f, "T2")}))
+		// 2. the same through real bridges (source node id comes from the session manager), several moves
+		out = append(out, mk(b, "0,0,0", []string{
+			rega(s, sn, "@3"), fmtRec("open", s, fwdRec(r, "T1", "")), fwd(f, "T1"), fwd(o, "T1"),
+			rega(s, sn, "@1"), fmtRec("open", s, fwdRec(r, "T2", "")), fwd(f, "T2"),
+			rega(s, sn, "@0"), fmtRec("open", s, fwdRec(r, "T3", "")), fwd(f, "T3"), fwd(o, "T3"), end(s, "T3"), fwd(f, "T3")}))
+		// 3. no address / empty address / address expired on the Redis clock / re-registered after expiry
+		out = append(out, mk(b, "0,0,0", []string{
+			fmtRec("reg", s, fwdRec(r, "T1", sn)), fwd(f, "T1"), rega(s, sn, ""), fwd(f, "T1"), rega(s, sn, "@1"), fwd(f, "T1"),
+			"advs:29000", fmtRec("reg", s, fwdRec(r, "T2", sn)), fwd(f, "T2"), "advs:86371000", fmtRec("reg", s, fwdRec(r, "T3", sn)), fwd(f, "T3"),
+			rega(o, sn, "@2"), fwd(f, "T3")}))
+		// 4. two source nodes swap their addresses between tunnels
+		out = append(out, mk(b, "0,0,0", []string{
+			rega(s, sn, "@0"), rega(o, on, "@1"), fmtRec("reg", s, fwdRec(r, "A1", sn)), fmtRec("reg", o, fwdRec(r, "B1", on)),
+			fwd(f, "A1"), fwd(f, "B1"), rega(s, sn, "@1"), rega(o, on, "@0"),
+			fmtRec("reg", s, fwdRec(r, "A2", sn)), fmtRec("reg", o, fwdRec(r, "B2", on)), fwd(f, "A2"), fwd(f, "B2"), fwd(f, "A1")}))
+	}
+	return out
+}
+
+func forwardHistory(r *vc.Rand, b string) string {
+	nodes := []string{"node-0", "node-1", "node-2"}
+	eps := []string{"@0", "@1", "@2", "@3", "@0", "@1", ""}
+	tids := []string{"T1", "T2", "T3", vc.Pick(r, idPool)}
+	n := 8 + r.Intn(12)
+	evs := []string{rega(0, "node-0", vc.Pick(r, eps)), rega(1, "node-1", vc.Pick(r, eps))}
+	for k := 0; k < n; k++ {
+		node := r.Intn(3)
+		tid := vc.Pick(r, tids)
+		switch r.Intn(16) {
+		case 0, 1, 2:
+			evs = append(evs, fmtRec("reg", node, fwdRec(r, tid, vc.Pick(r, nodes))))
+		case 3:
+			evs = append(evs, fmtRec("open", node, fwdRec(r, tid, "")))
+		case 4, 5, 6, 7, 8:
+			evs = append(evs, fwd(node, tid))
+		case 9:
+			evs = append(evs, look(node, tid))
+		case 10:
+			evs = append(evs, rem(node, tid))
+		case 11:
+			evs = append(evs, end(node, tid))
+		case 12, 13, 14:
+			evs = append(evs, rega(node, vc.Pick(r, nodes), vc.Pick(r, eps)))
+		case 15:
+			if r.Bool() {
+				evs = append(evs, geta(node, vc.Pick(r, nodes)))
+			} else {
+				evs = append(evs, fmt.Sprintf("advs:%d", vc.Pick(r, []int{1, 29999, 30000, 86399999, 86400000})))
+			}
+		}
+	}
+	return mk(b, "0,0,0", evs)
 }
